@@ -53,6 +53,10 @@ def _maybe_const(t):
 
 
 def b_int(interp, x=0):
+    from .interp import ModelObject
+
+    if isinstance(x, ModelObject) and hasattr(x, "pv_int"):
+        return x.pv_int(interp.cx)
     if isinstance(x, str):
         raise Unsupported("int() of a string")
     if isinstance(x, Arr):
@@ -127,6 +131,10 @@ def b_isinstance(interp, x, t):
     from .numpy_model import DType
 
     ts = t if isinstance(t, tuple) else (t,)
+    from .interp import ModelObject as _MO
+
+    if isinstance(x, _MO) and hasattr(x, "pv_isinstance"):
+        return any(isinstance(tt, Builtin) and x.pv_isinstance(tt.name) for tt in ts)
     for tt in ts:
         if isinstance(tt, Builtin):
             nm = tt.name
